@@ -70,6 +70,10 @@ SCENARIOS = [
     ("p1a+meta", C("delmeta", "p1", fmt="fD")),
     ("unref", C("dii", c="a", val="badsum")),
     ("p2a", C("dii", c="a", val="badsum")),
+    # the caller's own spelling of a cid (upper-case hex, no such object): claims and releases
+    # must agree on the spelling whatever happens in between
+    ("empty", C("tag", "p1", "x")),
+    ("p2a", C("tag", "p1", "x")),
 ]
 
 
@@ -279,10 +283,55 @@ class Enumerator:
         return rec
 
 
+KNOWN_ENV = {"USE_MULTIPROCESSING"}          # decided by C16 (Config.tla), not a placement knob
+ENV_SCENARIOS = [0, 2, 4, 8, 16, 17]         # indices into SCENARIOS re-run under each variable
+
+
+def discover_env():
+    """Environment variables the code under test READS (configuration surface that no
+    scenario would otherwise set): every string literal handed to os.environ.get /
+    os.getenv / os.environ[...] (not assigned) anywhere in the package."""
+    import re
+    src = os.path.join(os.environ.get("HASHSTORE_SRC", "/repo/src"), "hashstore")
+    names = set()
+    pat = re.compile(r"""(?:environ\.get|getenv)\(\s*['"]([A-Za-z_][A-Za-z0-9_]*)['"]"""
+                     r"""|environ\[\s*['"]([A-Za-z_][A-Za-z0-9_]*)['"]\s*\](?!\s*=[^=])""")
+    for dp, _, fns in os.walk(src):
+        for fn in fns:
+            if fn.endswith(".py"):
+                with open(os.path.join(dp, fn), encoding="utf-8", errors="replace") as f:
+                    for m in pat.finditer(f.read()):
+                        names.add(m.group(1) or m.group(2))
+    return sorted(names - KNOWN_ENV)
+
+
+def other_device_dir(ref):
+    """A fresh directory on a file system other than `ref`'s (so that a rename from it to the
+    store cannot be atomic), or None when this machine has only one writable device."""
+    import tempfile
+    dev = os.stat(ref).st_dev
+    for cand in (tempfile.gettempdir(), "/var/tmp", "/tmp", os.path.expanduser("~"), "/dev/shm"):
+        try:
+            if os.path.isdir(cand) and os.access(cand, os.W_OK) and os.stat(cand).st_dev != dev:
+                return tempfile.mkdtemp(prefix="hsverif.env.", dir=cand)
+        except OSError:
+            continue
+    return None
+
+
 def _enumerate(args):
-    start, call, idx, tier, errnos, what = args
+    start, call, idx, tier, errnos, what = args[:6]
+    envvar = args[6] if len(args) > 6 else None
     base = os.path.join(tlc.scratch_root(), "cf.%d.%d" % (os.getpid(), idx))
     t0 = time.time()
+    envdir, saved = None, None
+    if envvar:
+        os.makedirs(base, exist_ok=True)
+        envdir = other_device_dir(base)
+        if envdir is None:
+            return None
+        saved = os.environ.get(envvar)
+        os.environ[envvar] = envdir
     try:
         en = Enumerator(start, call, base)
         log, res0 = en.oplog()
@@ -302,21 +351,36 @@ def _enumerate(args):
                         if en.hangs >= 3:
                             continue          # three hung calls are evidence enough
                         faults.append(en.fault(n, mode, e))
-        return {"start": start, "call": call, "ops": len(log),
+        return {"start": start, "call": call, "ops": len(log), "env": envvar,
                 "fault_sites": sum(1 for x in log if x[1] in FAULT_OPS),
                 "fault_free_result": res0["cls"],
                 "crashes": crashes, "faults": faults, "wall": time.time() - t0,
                 "oplog": [[op, [list(x) for x in tok], out] for (n, op, tok, out) in log]}
     finally:
         shutil.rmtree(base, ignore_errors=True)
+        if envvar:
+            if saved is None:
+                os.environ.pop(envvar, None)
+            else:
+                os.environ[envvar] = saved
+            if envdir:
+                shutil.rmtree(envdir, ignore_errors=True)
 
 
 def run(tier, what=("crash", "fault"), only=None):
     errnos = [_errno.EIO] if tier == "quick" else [_errno.EIO, _errno.ENOSPC, _errno.EACCES]
     jobs = [(s, c, i, tier, errnos, what) for i, (s, c) in enumerate(SCENARIOS)
             if only is None or only in ("%s/%s" % (s, cstr(c)))]
+    # configuration surface: each environment variable the package reads (other than the ones a
+    # property of its own decides) names a directory on ANOTHER device; the placement-sensitive
+    # scenarios are enumerated again under it (crash points and one-off faults)
+    if only is None:
+        for var in discover_env():
+            for si in ENV_SCENARIOS:
+                s, c = SCENARIOS[si]
+                jobs.append((s, c, len(jobs), tier, errnos[:1], what, var))
     with multiprocessing.get_context("fork").Pool(min(16, len(jobs))) as pool:
-        return pool.map(_enumerate, jobs, chunksize=1)
+        return [r for r in pool.map(_enumerate, jobs, chunksize=1) if r is not None]
 
 
 def judge(results):
@@ -364,7 +428,7 @@ def report(v, results, viol, props, n_crash, n_fault):
         x = r["crashes"][xi] if kind == "crash" else r["faults"][xi]
         site = x.get("site")
         desc = {"clause": name, "kind": kind, "start": r["start"], "call": cstr(r["call"]),
-                "op": r["call"]["op"],
+                "op": r["call"]["op"], "env": r.get("env"),
                 "site_op": site[0] if site else None,
                 "site_path": [t[0] for t in site[1]] if site else None}
         if kind == "fault":
@@ -372,8 +436,8 @@ def report(v, results, viol, props, n_crash, n_fault):
             desc["res"] = x["res"]["cls"]
         replay = {"kind": kind, "property": prop, "clause": name, "start": r["start"],
                   "setup": STARTS[r["start"]], "call": r["call"], "k": x["k"], "record": x,
-                  "inst": INST,
-                  "how": "run `setup` on a fresh store, then `call` with a crash / OSError "
+                  "inst": INST, "env": r.get("env"),
+                  "how": "(if `env` is set: export it naming a directory on another device) run `setup` on a fresh store, then `call` with a crash / OSError "
                          "before its k-th intercepted file-system operation"}
         if prop in props:
             v.violation(desc, replay)
@@ -400,6 +464,8 @@ def report(v, results, viol, props, n_crash, n_fault):
                             "fault_sites": r["fault_sites"], "wall_s": round(r["wall"], 1)}
                            for r in results]
     cov["exhaustive"] = True
+    cov["env_variables_discovered"] = discover_env()
+    cov["scenarios_under_env_variable"] = sum(1 for r in results if r.get("env"))
     if results:
         r = results[0]
         cov["samples"] = [{"start": r["start"], "call": r["call"], "oplog": r["oplog"][:60]}]
